@@ -41,7 +41,7 @@ def run(ctx):
     def k8(): return bytes(rnd.randrange(256) for _ in range(8))
     for rep in range(4 if big else 2):
         k1, k2, k3 = k8(), k8(), k8()
-        for keys in ([k1], [k1, k2], [k1, k2, k3], [k1 + k2], [k1 + k2 + k3], [k1, k1, k1], [k1, k2, k1]):
+        for keys in ([k1], [k1, k2], [k1, k2, k3], [k1 + k2], [k1 + k2 + k3], [k1, k1, k1], [k1, k2, k1], [k1, k1, k3], [k1, k2, k2], [k1 + k1 + k3], [k1 + k2 + k2], [k1, k1]):
             e = R.ev_new('tdea', keys); ev.append(e)
             if not e['raised']:
                 obj = R.construct('tdea', keys)
